@@ -76,7 +76,7 @@ pub struct St {
     allocs: Vec<bool>,
     tls_init: Vec<[bool; 2]>,
     tls_cnt: Vec<[u8; 2]>,
-    lazy_init: [bool; 2],
+    lazy_init: [bool; 3],
     panicked: bool,
     /// position in the constraining log (trace validation only)
     logpos: u16,
@@ -189,9 +189,9 @@ impl<'a> Sc<'a> {
             exit: vec![[0; MAXT]; n],
             spawn: vec![[0; MAXT]; n],
             arc: vec![[0; MAXT]; p.n_arcs()],
-            lazy: vec![[0; MAXT]; 2],
-            cell_w: vec![[0; MAXT]; p.n_cells() + p.n_arcs() + 2 + p.n_atomics()],
-            cell_r: vec![[0; MAXT]; p.n_cells() + p.n_arcs() + 2 + p.n_atomics()],
+            lazy: vec![[0; MAXT]; 3],
+            cell_w: vec![[0; MAXT]; p.n_cells() + p.n_arcs() + 3 + p.n_atomics()],
+            cell_r: vec![[0; MAXT]; p.n_cells() + p.n_arcs() + 3 + p.n_atomics()],
         };
         let mut started = vec![false; n];
         started[0] = true;
@@ -222,7 +222,7 @@ impl<'a> Sc<'a> {
             allocs: vec![false; p.n_tracks()],
             tls_init: vec![[false; 2]; n],
             tls_cnt: vec![[0; 2]; n],
-            lazy_init: [false; 2],
+            lazy_init: [false; 3],
             panicked: false,
             logpos: 0,
             ck: if self.opts.clocks { Some(Box::new((mk(), mk()))) } else { None },
@@ -286,7 +286,7 @@ impl<'a> Sc<'a> {
         self.prog.n_cells() + self.prog.n_arcs() + k as usize
     }
     fn atom_loc(&self, a: u8) -> usize {
-        self.prog.n_cells() + self.prog.n_arcs() + 2 + a as usize
+        self.prog.n_cells() + self.prog.n_arcs() + 3 + a as usize
     }
 
     /// All steps thread `t` can take in `st`. `races` accumulates (min, max).
